@@ -70,6 +70,15 @@ Theorem C05_gdp_single_run {T} {N : Num T} (s : ost T) sigma q :
   end.
 Proof. exact (gdp_single_run s sigma q). Qed.
 
+(* a step the accountant refuses (GDP asked to record other parameters) changes nothing: the ledger recorded so far survives *)
+Theorem C05_refused_step_keeps_ledger {T} {N : Num T} (s : ost T) sigma q s' e :
+  ref_acc s sigma q = SErr s' e -> s' = s.
+Proof. exact (refused_step_keeps_ledger s sigma q s' e). Qed.
+Example C05_refusal_nonvacuous :
+  let s := upd_hist (init_state Flat AccGDP 1%Z 10%Z 1%Z 1%Z false false true) [(1, 1, 4)]%Z in
+  ref_acc s 2%Z 1%Z = SErr s ValueError.
+Proof. vm_compute. reflexivity. Qed.
+
 Example C05_nonvacuous :
   let s := run [FB [0; 1]%Z; Step; OptZero; FB [2]%Z; Skip true; Step; OptZero; FB [3]%Z; Step; SetNm 2%Z; OptZero; FB [4]%Z; Step]
                (init_state Flat AccRDP 1%Z 10%Z 1%Z 1%Z false false true) in
@@ -90,3 +99,4 @@ Print Assumptions C05_runlength_sound.
 Print Assumptions C05_generated_step_is_ref.
 Print Assumptions C05_gdp_single_run.
 Print Assumptions C05_empty_batch_not_skipped.
+Print Assumptions C05_refused_step_keeps_ledger.
